@@ -165,6 +165,15 @@ class ExecCall(ExecExpr):
             r = api.SPECFUNS[name](self, st, *args, **kwargs)
             yield st, r
             return
+        if self.spec_mode and name in ("stim_name", "stim_targets", "stim_args", "stim_rargs"):
+            (x,) = args
+            if name == "stim_name":
+                yield st, V("str", w.uf("stim_name", w.Ref, w.Str)(x.t))
+            else:
+                ek = "real" if name == "stim_rargs" else "int"
+                S = w.seq_sort(w.sort_of(ek))
+                yield st, V(("seq", ek), w.uf(name, w.Ref, S)(x.t))
+            return
         if self.spec_mode and name == "dict_get":
             d, k = args[0], args[1]
             yield st, (NONE if d is NONE else self.dict_get(st, d, k, NONE))
@@ -173,7 +182,7 @@ class ExecCall(ExecExpr):
             d, k = args[0], args[1]
             yield st, V("bool", z3.BoolVal(False) if d is NONE else self.dict_has(st, d, k))
             return
-        if self.spec_mode and name in ("same_seq", "set_same", "implies", "iff", "ite", "typeis", "fresh", "is_none", "subseq", "seq_concat",
+        if self.spec_mode and name in ("seq_is", "same_seq", "set_same", "implies", "iff", "ite", "typeis", "fresh", "is_none", "subseq", "seq_concat",
                                        "seq_unit", "seq_empty", "same_class", "born_before_entry"):
             yield st, self.spec_builtin(st, name, args)
             return
@@ -278,6 +287,29 @@ class ExecCall(ExecExpr):
                 yield st, x
             else:
                 yield st, x
+        elif name == "stim.target_rec":
+            # assumed external contract (probed): a record target is identified by its (negative) look-back
+            self.trusted_used.add("stim.target_rec(k): measurement record look-back k (assumed; Stim rejects k >= 0)")
+            k = self.coerce(args[0], "int")
+            self.oblige("safe", st, k.t < 0, "stim.target_rec needs a negative look-back", name=self.next_call_id("target_rec"))
+            yield st, k
+        elif name == "stim.CircuitInstruction":
+            self.trusted_used.add("stim.CircuitInstruction(name, targets, gate_args): a record of exactly these three (assumed, probed)")
+            kw = dict(kwargs)
+            for n, v in zip(["name", "targets", "gate_args"], args):
+                kw[n] = v
+            r = V(("ref", None), self.allocate_raw(st, "stim_instruction"))
+            st.assume(w.uf("stim_name", w.Ref, w.Str)(r.t) == kw["name"].t)
+            tg = self.to_seq(kw.get("targets", VList([])), "int")
+            st.assume(w.uf("stim_targets", w.Ref, tg.t.sort())(r.t) == tg.t)
+            ga = kw.get("gate_args", VList([]))
+            if isinstance(ga, (VList, VTuple)) and all(isinstance(x, V) and x.kind in ("int", "bool") or self.is_optint(x) for x in ga.items):
+                gs = self.to_seq(VList([self.coerce(x, "int") for x in ga.items]), "int")
+                st.assume(w.uf("stim_args", w.Ref, gs.t.sort())(r.t) == gs.t)
+            else:
+                gs = self.to_seq(VList([self.coerce(x, "real") for x in ga.items]) if isinstance(ga, (VList, VTuple)) else ga, "real")
+                st.assume(w.uf("stim_rargs", w.Ref, gs.t.sort())(r.t) == gs.t)
+            yield st, r
         elif name in ("warnings.warn", "warn", "print"):
             yield st, NONE
         elif name == "str":
@@ -344,11 +376,19 @@ class ExecCall(ExecExpr):
         w = self.w
         if name == "implies":
             return V("bool", z3.Implies(self.truth(args[0]), self.truth(args[1])))
+        if name == "seq_is":
+            a, b = args
+            ek = a.kind[1] if self.is_symseq(a) else (b.kind[1] if self.is_symseq(b) else None)
+            a, b = self.to_seq(a, ek), self.to_seq(b, ek)
+            return V("bool", a.t == b.t)          # the very same sequence value (array and length)
         if name == "same_seq":
             a, b = args
             ek = a.kind[1] if self.is_symseq(a) else (b.kind[1] if self.is_symseq(b) else None)
             a, b = self.to_seq(a, ek), self.to_seq(b, ek)
-            return V("bool", a.t == b.t)
+            # extensional equality: same length and same elements (the arrays may differ beyond the length)
+            k = z3.Int(w.fresh_name("e"))
+            return V("bool", z3.And(SLen(a.t) == SLen(b.t),
+                                    z3.ForAll([k], z3.Implies(z3.And(0 <= k, k < SLen(a.t)), SAt(a.t, k) == SAt(b.t, k)))))
         if name == "set_same":
             a, b = args
             return V("bool", self.set_same_uf()(a.t, b.t))
